@@ -42,6 +42,34 @@ theorem ArrayDescriptor_iff_parse (s : JStr) :
       subst e
       exact ⟨d, b, hf⟩
 
+/-- `is_valid_arr_class_name` = the documented meaning: array field descriptors -/
+theorem validArr_iff (s : JStr) : validArr s = true ↔ ArrayDescriptor s := by
+  unfold validArr
+  rw [Bool.and_eq_true, startsWithBracket_iff]
+  exact (ArrayDescriptor_iff_parse s).symm
+
+/-- `is_valid_class_name` = object class name or array class name -/
+theorem validClass_iff (s : JStr) : validClass s = true ↔ ClassName s ∨ ArrayDescriptor s := by
+  unfold validClass
+  by_cases hb : startsWithBracket s = true
+  · simp only [hb, if_true]
+    rw [validArr_iff]
+    constructor
+    · exact Or.inr
+    · intro h
+      rcases h with h | h
+      · have := startsWithBracket_false_of_not_mem (ClassName_no_bracket h)
+        rw [this] at hb; cases hb
+      · exact h
+  · simp only [hb, Bool.false_eq_true, if_false]
+    rw [segs_iff_ClassName]
+    constructor
+    · exact Or.inl
+    · intro h
+      rcases h with h | h
+      · exact h
+      · exact absurd ((startsWithBracket_iff s).mpr (ArrayDescriptor_head h)) hb
+
 /-- the parameter loop fails on a parameter with more than 255 dimensions -/
 theorem readParams_over (n : Nat) (h : 256 ≤ n) (s : JStr) (fuel : Nat) :
     readParams fuel (List.replicate n LBRACKET ++ s) = none := by
